@@ -6,7 +6,7 @@ from props.base import PropBase, tup
 from props.graphcommon import has_probes, Truth
 
 
-def graph_case(rnd, max_nodes=5, max_t=6, max_edges=12, selfloops=0.1):
+def graph_case(rnd, max_nodes=5, max_t=6, max_edges=12, selfloops=0.1, long_timeline=False):
     directed = rnd.random() < 0.5
     n = rnd.randint(2, max_nodes)
     T = rnd.randint(1, max_t)
@@ -18,6 +18,11 @@ def graph_case(rnd, max_nodes=5, max_t=6, max_edges=12, selfloops=0.1):
         t = rnd.randint(0, T)
         e = None if rnd.random() < 0.75 else t + rnd.randint(1, 3)
         hist.append(('add', 0, u, v, t, e))
+    if long_timeline and rnd.random() < 0.06:
+        # LONG timeline: one pair with 17..40 separate runs (two to three instants each).  Only where no paths are
+        # enumerated (temporal_dag alone): the number of time-respecting paths grows exponentially with the runs
+        k = rnd.randint(17, 40)
+        hist = [o for o in hist if {o[2], o[3]} != {1, 2}][:4] + [('add', 0, 1, 2, 5 * i, 5 * i + rnd.choice([2, 3])) for i in range(k)]
     # snapshot ids of different widths / signs (the DAG encodes them in strings)
     sh = rnd.choice([0, 0, 0, 7, 8, -3, -2, 96, 2 ** 31 - 2, 1700000000000])
     hist = [(o[0], o[1], o[2], o[3], o[4] + sh, None if o[5] is None else o[5] + sh) for o in hist]
@@ -33,7 +38,7 @@ def graph_case(rnd, max_nodes=5, max_t=6, max_edges=12, selfloops=0.1):
         a = rnd.choice([None, None] + list(range(min(ts) - 1, max(ts) + 2)))
         b = rnd.choice([None, None] + list(range(min(ts) - 1, max(ts) + 2)))
         qs.append((u, v, a, b))
-    return dict(directed=directed, removal=True, hist=hist, family=rnd.choice(['int', 'str', 'us']), functional=False, queries=qs,
+    return dict(directed=directed, removal=True, hist=hist, family=rnd.choice(['int', 'str', 'us', 'sp']), functional=False, queries=qs,
                 min_t=rnd.choice([None, ts[0], rnd.choice(ts)]))
 
 
